@@ -9,77 +9,287 @@ theorem sorted_append_cons {l r : List (κ × ν)} {p : κ × ν} :
     Sorted cmp (l ++ p :: r) ↔
       Sorted cmp l ∧ Sorted cmp r ∧ (∀ a ∈ l, cmp a.1 p.1 = .lt) ∧ (∀ b ∈ r, cmp p.1 b.1 = .lt) ∧
       (∀ a ∈ l, ∀ b ∈ r, cmp a.1 b.1 = .lt) := by
-  sorry
+  simp only [Sorted, List.pairwise_append, List.pairwise_cons, List.mem_cons]
+  constructor
+  · rintro ⟨h1, ⟨h2, h3⟩, h4⟩
+    exact ⟨h1, h3, fun a ha => h4 a ha p (Or.inl rfl), h2, fun a ha b hb => h4 a ha b (Or.inr hb)⟩
+  · rintro ⟨h1, h2, h3, h4, h5⟩
+    refine ⟨h1, ⟨h4, h2⟩, ?_⟩
+    intro a ha b hb
+    rcases hb with rfl | hb
+    · exact h3 a ha
+    · exact h5 a ha b hb
+
+/-! ### auxiliary: skipping a prefix of smaller keys -/
+
+private theorem insert_append_of_gt {l m : List (κ × ν)} {k : κ} {v : ν}
+    (h : ∀ a ∈ l, cmp k a.1 = .gt) : insert cmp (l ++ m) k v = l ++ insert cmp m k v := by
+  induction l with
+  | nil => rfl
+  | cons a l ih =>
+    have ha : cmp k a.1 = .gt := h a (by simp)
+    have := ih (fun b hb => h b (by simp [hb]))
+    simp [insert, ha, this]
+
+private theorem erase_append_of_gt {l m : List (κ × ν)} {k : κ}
+    (h : ∀ a ∈ l, cmp k a.1 = .gt) : erase cmp (l ++ m) k = l ++ erase cmp m k := by
+  induction l with
+  | nil => rfl
+  | cons a l ih =>
+    have ha : cmp k a.1 = .gt := h a (by simp)
+    have := ih (fun b hb => h b (by simp [hb]))
+    simp [erase, ha, this]
+
+private theorem find_append_of_gt {l m : List (κ × ν)} {k : κ}
+    (h : ∀ a ∈ l, cmp k a.1 = .gt) : find cmp (l ++ m) k = find cmp m k := by
+  induction l with
+  | nil => rfl
+  | cons a l ih =>
+    have ha : cmp k a.1 = .gt := h a (by simp)
+    have := ih (fun b hb => h b (by simp [hb]))
+    simp only [find] at this ⊢
+    simp [ha, this]
+
+private theorem find_eq_none_of_lt {m : List (κ × ν)} {k : κ}
+    (h : ∀ b ∈ m, cmp k b.1 = .lt) : find cmp m k = none := by
+  simp only [find, List.find?_eq_none]
+  intro b hb
+  simp [h b hb]
+
+private theorem gt_left_of_ge [TransCmp cmp] {l r : List (κ × ν)} {p : κ × ν} {k : κ}
+    (hs : Sorted cmp (l ++ p :: r)) (h : cmp k p.1 ≠ .lt) : ∀ a ∈ l, cmp k a.1 = .gt := by
+  intro a ha
+  have hap := (sorted_append_cons.1 hs).2.2.1 a ha
+  apply OrientedCmp.gt_of_lt
+  cases hk : cmp k p.1 with
+  | lt => exact absurd hk h
+  | eq => exact TransCmp.lt_of_lt_of_eq hap (OrientedCmp.eq_symm hk)
+  | gt => exact TransCmp.lt_trans hap (OrientedCmp.lt_of_gt hk)
+
+private theorem lt_right_of_le [TransCmp cmp] {l r : List (κ × ν)} {p : κ × ν} {k : κ}
+    (hs : Sorted cmp (l ++ p :: r)) (h : cmp k p.1 ≠ .gt) : ∀ b ∈ r, cmp k b.1 = .lt := by
+  intro b hb
+  have hpb := (sorted_append_cons.1 hs).2.2.2.1 b hb
+  cases hk : cmp k p.1 with
+  | lt => exact TransCmp.lt_trans hk hpb
+  | eq => exact TransCmp.lt_of_eq_of_lt hk hpb
+  | gt => exact absurd hk h
 
 theorem insert_mid_lt [TransCmp cmp] {l r : List (κ × ν)} {p : κ × ν} {k : κ} {v : ν}
     (hs : Sorted cmp (l ++ p :: r)) (h : cmp k p.1 = .lt) :
     insert cmp (l ++ p :: r) k v = insert cmp l k v ++ p :: r := by
-  sorry
+  have := hs; clear this hs
+  induction l with
+  | nil => simp [insert, h]
+  | cons a l ih =>
+    simp only [List.cons_append, insert]
+    cases cmp k a.1 <;> simp [ih]
 
 theorem insert_mid_gt [TransCmp cmp] {l r : List (κ × ν)} {p : κ × ν} {k : κ} {v : ν}
     (hs : Sorted cmp (l ++ p :: r)) (h : cmp k p.1 = .gt) :
     insert cmp (l ++ p :: r) k v = l ++ p :: insert cmp r k v := by
-  sorry
+  rw [insert_append_of_gt (gt_left_of_ge hs (by simp [h]))]
+  simp [insert, h]
 
 theorem insert_mid_eq [TransCmp cmp] {l r : List (κ × ν)} {p : κ × ν} {k : κ} {v : ν}
     (hs : Sorted cmp (l ++ p :: r)) (h : cmp k p.1 = .eq) :
     insert cmp (l ++ p :: r) k v = l ++ (k, v) :: r := by
-  sorry
+  rw [insert_append_of_gt (gt_left_of_ge hs (by simp [h]))]
+  simp [insert, h]
 
 theorem erase_mid_lt [TransCmp cmp] {l r : List (κ × ν)} {p : κ × ν} {k : κ}
     (hs : Sorted cmp (l ++ p :: r)) (h : cmp k p.1 = .lt) :
     erase cmp (l ++ p :: r) k = erase cmp l k ++ p :: r := by
-  sorry
+  have := hs; clear this hs
+  induction l with
+  | nil => simp [erase, h]
+  | cons a l ih =>
+    simp only [List.cons_append, erase]
+    cases cmp k a.1 <;> simp [ih]
 
 theorem erase_mid_gt [TransCmp cmp] {l r : List (κ × ν)} {p : κ × ν} {k : κ}
     (hs : Sorted cmp (l ++ p :: r)) (h : cmp k p.1 = .gt) :
     erase cmp (l ++ p :: r) k = l ++ p :: erase cmp r k := by
-  sorry
+  rw [erase_append_of_gt (gt_left_of_ge hs (by simp [h]))]
+  simp [erase, h]
 
 theorem erase_mid_eq [TransCmp cmp] {l r : List (κ × ν)} {p : κ × ν} {k : κ}
     (hs : Sorted cmp (l ++ p :: r)) (h : cmp k p.1 = .eq) :
     erase cmp (l ++ p :: r) k = l ++ r := by
-  sorry
+  rw [erase_append_of_gt (gt_left_of_ge hs (by simp [h]))]
+  simp [erase, h]
 
 theorem find_mid_lt [TransCmp cmp] {l r : List (κ × ν)} {p : κ × ν} {k : κ}
     (hs : Sorted cmp (l ++ p :: r)) (h : cmp k p.1 = .lt) :
     find cmp (l ++ p :: r) k = find cmp l k := by
-  sorry
+  have hr : find cmp (p :: r) k = none :=
+    find_eq_none_of_lt (by
+      intro b hb
+      rcases List.mem_cons.1 hb with rfl | hb
+      · exact h
+      · exact lt_right_of_le hs (by simp [h]) b hb)
+  simp only [find] at hr ⊢
+  rw [List.find?_append, hr]
+  simp
 
 theorem find_mid_gt [TransCmp cmp] {l r : List (κ × ν)} {p : κ × ν} {k : κ}
     (hs : Sorted cmp (l ++ p :: r)) (h : cmp k p.1 = .gt) :
     find cmp (l ++ p :: r) k = find cmp r k := by
-  sorry
+  rw [find_append_of_gt (gt_left_of_ge hs (by simp [h]))]
+  simp [find, h]
 
 theorem find_mid_eq [TransCmp cmp] {l r : List (κ × ν)} {p : κ × ν} {k : κ}
     (hs : Sorted cmp (l ++ p :: r)) (h : cmp k p.1 = .eq) :
     find cmp (l ++ p :: r) k = some p := by
-  sorry
+  rw [find_append_of_gt (gt_left_of_ge hs (by simp [h]))]
+  simp [find, h]
+
+private theorem mem_insert {l : List (κ × ν)} {k : κ} {v : ν} {b : κ × ν}
+    (hb : b ∈ insert cmp l k v) : b = (k, v) ∨ b ∈ l := by
+  induction l with
+  | nil => simp [insert] at hb; simp [hb]
+  | cons a l ih =>
+    simp only [insert] at hb
+    cases hk : cmp k a.1 <;> simp only [hk, List.mem_cons] at hb ⊢
+    · rcases hb with hb | hb | hb <;> simp [hb]
+    · rcases hb with hb | hb <;> simp [hb]
+    · rcases hb with hb | hb
+      · simp [hb]
+      · rcases ih hb with h | h <;> simp [h]
+
+private theorem mem_erase {l : List (κ × ν)} {k : κ} {b : κ × ν}
+    (hb : b ∈ erase cmp l k) : b ∈ l := by
+  induction l with
+  | nil => simp [erase] at hb
+  | cons a l ih =>
+    simp only [erase] at hb
+    cases hk : cmp k a.1 <;> simp only [hk, List.mem_cons] at hb ⊢
+    · exact hb
+    · exact Or.inr hb
+    · rcases hb with hb | hb
+      · exact Or.inl hb
+      · exact Or.inr (ih hb)
 
 theorem sorted_insert [TransCmp cmp] {l : List (κ × ν)} (hs : Sorted cmp l) (k : κ) (v : ν) :
     Sorted cmp (insert cmp l k v) := by
-  sorry
+  induction l with
+  | nil => simp [insert, Sorted]
+  | cons a l ih =>
+    have hs' := hs
+    simp only [Sorted, List.pairwise_cons] at hs'
+    obtain ⟨ha, hl⟩ := hs'
+    simp only [insert]
+    cases hk : cmp k a.1 with
+    | lt =>
+      simp only [Sorted, List.pairwise_cons]
+      refine ⟨?_, ha, hl⟩
+      intro b hb
+      rcases List.mem_cons.1 hb with rfl | hb
+      · exact hk
+      · exact TransCmp.lt_trans hk (ha b hb)
+    | eq =>
+      simp only [Sorted, List.pairwise_cons]
+      exact ⟨fun b hb => TransCmp.lt_of_eq_of_lt hk (ha b hb), hl⟩
+    | gt =>
+      simp only [Sorted, List.pairwise_cons]
+      refine ⟨?_, ih hl⟩
+      intro b hb
+      rcases mem_insert hb with rfl | hb
+      · exact OrientedCmp.lt_of_gt hk
+      · exact ha b hb
 
 theorem sorted_erase [TransCmp cmp] {l : List (κ × ν)} (hs : Sorted cmp l) (k : κ) :
     Sorted cmp (erase cmp l k) := by
-  sorry
+  induction l with
+  | nil => simp [erase, Sorted]
+  | cons a l ih =>
+    have hs' := hs
+    simp only [Sorted, List.pairwise_cons] at hs'
+    obtain ⟨ha, hl⟩ := hs'
+    simp only [erase]
+    cases hk : cmp k a.1 with
+    | lt => exact hs
+    | eq => exact hl
+    | gt =>
+      simp only [Sorted, List.pairwise_cons]
+      exact ⟨fun b hb => ha b (mem_erase hb), ih hl⟩
+
+private theorem find_cons_of_le [TransCmp cmp] {a : κ × ν} {l : List (κ × ν)} {k : κ}
+    (hs : Sorted cmp (a :: l)) (h : cmp k a.1 = .lt) : find cmp (a :: l) k = none := by
+  apply find_eq_none_of_lt
+  intro b hb
+  simp only [Sorted, List.pairwise_cons] at hs
+  rcases List.mem_cons.1 hb with rfl | hb
+  · exact h
+  · exact TransCmp.lt_trans h (hs.1 b hb)
+
+private theorem find_cons_eq {a : κ × ν} {l : List (κ × ν)} {k : κ}
+    (h : cmp k a.1 = .eq) : find cmp (a :: l) k = some a := by
+  simp [find, h]
+
+private theorem find_cons_gt {a : κ × ν} {l : List (κ × ν)} {k : κ}
+    (h : cmp k a.1 = .gt) : find cmp (a :: l) k = find cmp l k := by
+  simp [find, h]
 
 /-- the length bookkeeping behind `nnodes` -/
 theorem length_insert [TransCmp cmp] {l : List (κ × ν)} (hs : Sorted cmp l) (k : κ) (v : ν) :
     (insert cmp l k v).length = if (find cmp l k).isNone then l.length + 1 else l.length := by
-  sorry
+  induction l with
+  | nil => simp [insert, find]
+  | cons a l ih =>
+    have hl : Sorted cmp l := by
+      simp only [Sorted, List.pairwise_cons] at hs; exact hs.2
+    cases hk : cmp k a.1 with
+    | lt => simp [insert, hk, find_cons_of_le hs hk]
+    | eq => simp [insert, hk, find_cons_eq hk]
+    | gt =>
+      simp only [insert, hk, find_cons_gt hk, List.length_cons, ih hl]
+      split <;> rfl
 
 theorem length_erase [TransCmp cmp] {l : List (κ × ν)} (hs : Sorted cmp l) (k : κ) :
     (erase cmp l k).length + (if (find cmp l k).isSome then 1 else 0) = l.length := by
-  sorry
+  induction l with
+  | nil => simp [erase, find]
+  | cons a l ih =>
+    have hl : Sorted cmp l := by
+      simp only [Sorted, List.pairwise_cons] at hs; exact hs.2
+    cases hk : cmp k a.1 with
+    | lt => simp [erase, hk, find_cons_of_le hs hk]
+    | eq => simp [erase, hk, find_cons_eq hk]
+    | gt =>
+      simp only [erase, hk, find_cons_gt hk, List.length_cons]
+      have := ih hl
+      omega
 
 /-- multiset bookkeeping behind "destroyed exactly once" -/
 theorem perm_insert [TransCmp cmp] {l : List (κ × ν)} (hs : Sorted cmp l) (k : κ) (v : ν) :
     ((find cmp l k).toList ++ insert cmp l k v).Perm ((k, v) :: l) := by
-  sorry
+  induction l with
+  | nil => simp [insert, find]
+  | cons a l ih =>
+    have hl : Sorted cmp l := by
+      simp only [Sorted, List.pairwise_cons] at hs; exact hs.2
+    cases hk : cmp k a.1 with
+    | lt => simp [insert, hk, find_cons_of_le hs hk]
+    | eq =>
+      simp only [insert, hk, find_cons_eq hk, Option.toList_some, List.singleton_append]
+      exact List.Perm.swap _ _ _
+    | gt =>
+      simp only [insert, hk, find_cons_gt hk]
+      exact (List.perm_middle.trans ((ih hl).cons a)).trans (List.Perm.swap _ _ _)
 
 theorem perm_erase [TransCmp cmp] {l : List (κ × ν)} (hs : Sorted cmp l) (k : κ) :
     ((find cmp l k).toList ++ erase cmp l k).Perm l := by
-  sorry
+  induction l with
+  | nil => simp [erase, find]
+  | cons a l ih =>
+    have hl : Sorted cmp l := by
+      simp only [Sorted, List.pairwise_cons] at hs; exact hs.2
+    cases hk : cmp k a.1 with
+    | lt => simp [erase, hk, find_cons_of_le hs hk]
+    | eq => simp [erase, hk, find_cons_eq hk]
+    | gt =>
+      simp only [erase, hk, find_cons_gt hk]
+      exact List.perm_middle.trans ((ih hl).cons a)
 
 end PV.SM
